@@ -69,6 +69,7 @@ func runCase(r *ev.Run, idx int) {
 	g.Weights = kvlab.MutationWeights()
 	g.ImportLeases = true
 	g.LeaseTokens = []uint64{1, kvlab.FarFuture, rng.Uint64() >> 1}
+	g.EmptyBatches = true
 	defer func() { r.Count("mutations_with_a_bulk_key_set(15..300 keys)", int64(g.BulkOps)) }()
 	if idx%3 == 1 {
 		g.BulkMax = 300 // hand-overs of whole key ranges (one mutation, hundreds of keys)
